@@ -293,6 +293,9 @@ def norm_type(t):
     t = re.sub(r',allocator<[^<>]*(<[^<>]*>)?[^<>]*>', '', t)
     t = re.sub(r'numeric_type_of<[^<>]*(<[^<>]*>)?[^<>]*>', 'double', t)
     t = re.sub(r'^multi_channel_integrand<.*>::map_type$', 'vpinst::Map', t)
+    m = re.match(r'^(?:chkpt|vegas_chkpt|multi_channel_chkpt)<(.*)>::result_type$', t)
+    if m:
+        t = {'vegas_chkpt': 'vegas_result<double>', 'multi_channel_chkpt': 'multi_channel_result<double>'}.get(t.split('<')[0], m.group(1))
     return t
 
 
@@ -801,6 +804,11 @@ class Emitter:
                 and not [a for a in kids(sa) if a['kind'] != 'CXXDefaultArgExpr']:
             self.fire('G6')
             return '(&(%s){0, 0, 0})' % ti['ctype']
+        if sa['kind'] in ('CXXTemporaryObjectExpr', 'CXXConstructExpr') and ti['kind'] == 'vec':
+            # std::vector<X>(n, x) temporary: materialised in a function-level temporary
+            self.fire('G6')
+            t = self.new_temp(ti)
+            return '(%s &%s)' % (self.construct(sa, ti).replace('@DST@', '&' + t).rstrip(';') + ',', t)
         if sa['kind'] in ('CXXConstructExpr', 'CXXTemporaryObjectExpr', 'InitListExpr') or \
                 (sa['kind'] in ('CallExpr', 'CXXMemberCallExpr', 'CXXOperatorCallExpr') and sa.get('valueCategory') == 'prvalue'):
             raise ExtractError('temporary object passed as argument (%s)' % sa['kind'])
@@ -1035,6 +1043,11 @@ class Emitter:
             txt = '%s(%s)' % (cname, ', '.join(al))
             if rti['kind'] in ('class', 'vec') and n.get('valueCategory') != 'prvalue':
                 txt = '(*%s)' % txt   # returns a reference: the C function returns a pointer
+            if cname in self.opts.get('throws', ()):
+                if self.ret_ti['ctype'] != 'void' or rti['ctype'] != 'void':
+                    raise ExtractError('exception propagation through a non-void context (%s)' % cname)
+                self.fire('G14')
+                txt = 'VP_CALL_MAY_THROW(%s)' % txt
             return txt
         raise ExtractError('member call %s on %s' % (name, qtype(base)))
 
@@ -1171,12 +1184,18 @@ class Emitter:
         if not ks:
             return '{ %s return; }' % ex
         rti = self.ret_ti
-        if rti['kind'] in ('class', 'vec') and not rti['ref']:
+        if rti['kind'] in ('class', 'vec', 'engine') and not rti['ref']:
             self.fire('G11')
             val = self.emit_as_object(ks[0], rti, 'vp_ret')
             if val[0] == 'into':
                 return '{ %s %s return; }' % (val[1].replace('@DST@', 'vp_ret'), ex)
-            return '{ *vp_ret = %s; %s return; }' % (val[1], ex)
+            src = strip_all(ks[0])
+            while src['kind'] == 'CXXConstructExpr' and len(kids(src)) == 1:
+                src = strip_all(kids(src)[0])
+            is_local = src['kind'] == 'DeclRefExpr' and src.get('referencedDecl', {}).get('kind') == 'VarDecl'
+            if is_local or rti['kind'] == 'engine':
+                return '{ *vp_ret = %s; %s return; }' % (val[1], ex)     # a local is moved out
+            return '{ vp_%s_copy(vp_ret, &(%s)); %s return; }' % (rti['ctype'], val[1], ex)   # anything else is copied
         if rti['kind'] in ('class', 'vec') and rti['ref']:
             return '{ %s return &(%s); }' % (ex, self.emit(strip_all(ks[0])))
         if ex:
@@ -1201,8 +1220,12 @@ class Emitter:
         raise ExtractError('macro expansion inside extracted code (not assert)')
 
     def o_CXXThrowExpr(self, n):
+        # throw E(...);  ->  the exception-in-flight flag is raised and the function returns (G14)
         self.fire('G14')
-        return 'VP_THROW()'
+        rt = self.ret_ti
+        if rt['kind'] == 'scalar' and rt['ctype'] != 'void':
+            return '{ vp_thrown = 1; return (%s)0; }' % rt['ctype']
+        return '{ vp_thrown = 1; return; }'
 
     def o_NullStmt(self, n):
         return None
@@ -1224,7 +1247,7 @@ class Emitter:
         rti = self.tm.info(ret) if not is_ctor else self.tm.info('void')
         self.ret_ti = rti
         plist = []
-        if rti['kind'] in ('class', 'vec') and not rti['ref']:
+        if rti['kind'] in ('class', 'vec', 'engine') and not rti['ref']:
             plist.append('%s *vp_ret' % self.decl_ctype(rti))
             rtxt = 'void'
         elif rti['kind'] in ('class', 'vec'):
